@@ -111,6 +111,63 @@ func ProcessSchedPart(run *report.Run, st *Setup, n int, kinds map[string]bool) 
 				break
 			}
 		}
+		// Several dependants of one restored dependency (load_outputs=minimal): the dependency
+		// is a cache hit whose outputs are absent from the workspace, all its direct dependants
+		// have to execute, and the restore of its outputs is slowed down at the handlers' hook
+		// points, so that a dependant that did not wait for the restore sees a partial tree.
+		if minimal && !keep && gcfg.NumWorkers >= 2 {
+			states, err := env.Spec.Eval()
+			var dep *spec.Target
+			var dependants []*spec.Target
+			if err == nil {
+				for _, t := range env.Spec.Targets {
+					if len(t.AllOuts()) == 0 || t.HasTag("no-cache") {
+						continue
+					}
+					var ds []*spec.Target
+					for _, u := range env.Spec.Targets {
+						for _, d := range states[u.Label()].DirectDeps {
+							if d == t.Label() {
+								ds = append(ds, u)
+							}
+						}
+					}
+					if len(ds) > len(dependants) {
+						dep, dependants = t, ds
+					}
+				}
+			}
+			if dep != nil && len(dependants) >= 2 {
+				env.Apply(func() string {
+					for _, u := range dependants {
+						u.Salt = r.Word(4, 8)
+					}
+					env.Logf("change the commands of the %d direct dependants of %s", len(dependants), dep.Label())
+					return "command-change"
+				})
+				env.WipeOutputs()
+				plan := "file.load.*=delay:40000;dir.load.*=delay:40000"
+				env.Logf("GROG_VERIF_PLAN=%s", plan)
+				p, obs, vs, err := env.Step(BuildOpts{Env: []string{"GROG_VERIF_PLAN=" + plan}}, cfg, "shared-dependency-restore", false)
+				if err != nil {
+					run.Infra(err.Error())
+					return
+				}
+				run.Eval(1)
+				run.Count("process_builds", 1)
+				run.Count("builds_with_slowed_restore_of_a_shared_dependency", 1)
+				ov, _ := TraceOrderViolations(env.Spec, p, obs, gcfg.NumWorkers)
+				vs = append(vs, ov...)
+				for _, v := range vs {
+					if kinds[v.Kind] {
+						keep = !run.Violation("process "+v.Sig, v.What, mkReplay(i, env, obs)) || keep
+					} else {
+						run.Count("divergence_other_property:"+v.Kind, 1)
+						Debugf("case %d: other-property divergence %s: %s | %s", i, v.Kind, v.Sig, v.What)
+					}
+				}
+			}
+		}
 		run.Sample(map[string]any{"process_case": i, "shape": s.Shape(), "num_workers": gcfg.NumWorkers, "history": env.Log})
 	})
 }
